@@ -112,6 +112,10 @@ def explore(h, max_states=200000, seed=0, max_wall=None, check_key_soundness=Tru
     res = ExploreResult(h.name)
     if max_deviations is None:
         max_deviations = getattr(h, "max_deviations", None)
+    # horizon: an execution is cut (without a verdict beyond that point) after this many steps - for inputs far
+    # wider than the state-space bound, whose first phase (e.g. seeding a queue before any consumer exists) is
+    # what is being examined
+    horizon = getattr(h, "horizon_steps", None)
     res.deviation_bound = max_deviations
     spent = {}  # key -> fewest deviations with which the state was expanded
     t0 = time.time()
@@ -131,6 +135,8 @@ def explore(h, max_states=200000, seed=0, max_wall=None, check_key_soundness=Tru
         prefix, pkey, plabel = stack.pop()
         ex = Execution(h)
         res.executions += 1
+        spun = False
+        choices = list(prefix)
         try:
             sched = ex.sched
             # replay
@@ -149,14 +155,19 @@ def explore(h, max_states=200000, seed=0, max_wall=None, check_key_soundness=Tru
                 viol = ex.step_violations()
                 finished = ex.main_finished()
                 extra = None
-                key, rank = statekey.state_key(sched, repo, extra)
+                if max_deviations == 0:
+                    # a single execution (the default schedule): nothing to merge, so no key is computed (its cost
+                    # grows with the length of the queues)
+                    key, rank = ("step", len(choices)), None
+                else:
+                    key, rank = statekey.state_key(sched, repo, extra)
                 if cur_parent is not None:
                     succ.setdefault(cur_parent, set()).add(key)
                     res.transitions += 1
                 elif key not in seen:
                     pass
                 acts = [] if (finished or viol) else sched.enabled()
-                canon = hash(statekey.canon_labels(acts, sched, rank))
+                canon = hash(statekey.canon_labels(acts, sched, rank)) if rank is not None else 0
                 ndev = sum(1 for c in choices if c)
                 if key in seen:
                     if check_key_soundness and seen[key] != canon:
@@ -202,10 +213,23 @@ def explore(h, max_states=200000, seed=0, max_wall=None, check_key_soundness=Tru
                 sched.execute(acts[0])
                 choices.append(0)
                 cur_parent, cur_label = key, acts[0].label
+                if horizon is not None and len(choices) >= horizon:
+                    res.counters["executions_cut_at_the_horizon"] = res.counters.get("executions_cut_at_the_horizon", 0) + 1
+                    cut_keys.add(key)
+                    break
                 if len(choices) > MAXSTEPS:
                     raise vmp.VmpError("horizon exceeded")
+        except vmp.Spinning:
+            # a process busy-waits outside the virtual layer: report it and stop exploring this configuration
+            # (every further execution would only run into the same watchdog)
+            for sig, detail in ex.step_violations():
+                res.violation(sig, detail, ex.sched.trace)
+            res.exhaustive = False
+            spun = True
         finally:
             ex.close()
+        if spun:
+            break
         if determinism_checks > 0 and len(choices) >= 3:
             # replay determinism: the same schedule must produce the same state keys (twice)
             determinism_checks -= 1
